@@ -11,8 +11,9 @@ void __vf_memcpy(char*d, char*s, uint64_t n){ for(uint64_t i=0;i<n;i++) d[i]=s[i
 void __vf_memmove(char*d, char*s, uint64_t n){ if(n){ if(__CPROVER_same_object(d,s) && d>s){ for(uint64_t i=n;i>0;i--) d[i-1]=s[i-1]; } else { for(uint64_t i=0;i<n;i++) d[i]=s[i]; } } }
 void __vf_memset(char*d, uint8_t c, uint64_t n){ for(uint64_t i=0;i<n;i++) d[i]=c; }
 uint64_t __vf_ctpop(uint64_t x){ x=x-((x>>1)&0x5555555555555555ULL); x=(x&0x3333333333333333ULL)+((x>>2)&0x3333333333333333ULL); x=(x+(x>>4))&0x0f0f0f0f0f0f0f0fULL; return (x*0x0101010101010101ULL)>>56; }
-uint64_t __vf_ctlz(uint64_t x,int w){ uint64_t c=0; for(int i=w-1;i>=0;i--){ if((x>>i)&1) break; c++; } return c; }
-uint64_t __vf_cttz(uint64_t x,int w){ uint64_t c=0; for(int i=0;i<w;i++){ if((x>>i)&1) break; c++; } return c; }
+/* loop-free count leading/trailing zeros (so that no unwinding bound is involved) */
+uint64_t __vf_ctlz(uint64_t x,int w){ if(w<64) x&=((1ULL<<w)-1); if(!x) return (uint64_t)w; uint64_t n=0; if(!(x>>32)){n+=32;x<<=32;} if(!(x>>48)){n+=16;x<<=16;} if(!(x>>56)){n+=8;x<<=8;} if(!(x>>60)){n+=4;x<<=4;} if(!(x>>62)){n+=2;x<<=2;} if(!(x>>63)){n+=1;} return n-(uint64_t)(64-w); }
+uint64_t __vf_cttz(uint64_t x,int w){ if(w<64) x&=((1ULL<<w)-1); if(!x) return (uint64_t)w; uint64_t n=0; if(!(x&0xFFFFFFFFULL)){n+=32;x>>=32;} if(!(x&0xFFFF)){n+=16;x>>=16;} if(!(x&0xFF)){n+=8;x>>=8;} if(!(x&0xF)){n+=4;x>>=4;} if(!(x&3)){n+=2;x>>=2;} if(!(x&1)){n+=1;} return n; }
 
 /* exception type hierarchy of the std types the code throws */
 static char* base_of(char* t){
